@@ -64,6 +64,17 @@ func (m *MonC02) OnReq(w *World, r *Req) {
 			return
 		}
 	}
+	// revision-stamp: what an owner applies carries the owner's own revision number
+	if r.Patch == "apply" && r.Succeeded() && IsControlledBy(r.After, owner, strategy) {
+		if stamped, ok := RecordedRevision(r.After); ok {
+			if rev := ownerRevision(p, owner); rev != 0 && stamped != rev {
+				m.touch()
+				w.Report(Violation{Property: "C02", Rule: "revision-stamp", Sig: shortSite(r.Site), Seq: r.Seq,
+					Msg: fmt.Sprintf("pass %d of %s %s (revision %d) applied %s and recorded revision %d on it", p.ID, p.Ctrl, p.Key, rev, r.Key(), stamped)})
+				return
+			}
+		}
+	}
 	rb, okb := RecordedRevision(r.Before)
 	ra, oka := RecordedRevision(r.After)
 	if okb && oka && ra < rb {
